@@ -114,7 +114,10 @@ pub fn gen(prop: &str, seed: u64, thorough: bool, out: &mut impl Write) {
                 let max = rng.pick(&maxes);
                 let len = if max >= 8192 { if rng.chance(1, 30) { max.min(8192) + rng.below(2) } else { rng.below(20) } } else { rng.below(max + 3) };
                 let mut c = vec![2, max];
-                for j in 0..len { c.push(if j == 0 && rng.chance(9, 10) { 0 } else { rng.next() }); }
+                // entries: arbitrary words, with zero words anywhere (a zero is a legal entry: the null descriptor,
+                // the upper half of a system descriptor whose base lies below 4 GiB), in particular at the end
+                let zeros_tail = if rng.chance(1, 3) { 1 + rng.below(3) } else { 0 };
+                for j in 0..len { c.push(if (j == 0 && rng.chance(9, 10)) || j + zeros_tail >= len || rng.chance(1, 10) { 0 } else { rng.next() }); }
                 emit(out, &c);
             }
         }
